@@ -172,6 +172,16 @@ def run_sampling(case):
                 raise Violation(f"{what}: returned state {list(v)} has fewer than min_detection={min_det} photons",
                                 key="sample-min-detection")
             if acc.get(v, 0.0) <= 1e-13:
+                # Documented truncation: full-mode states below sampler_probability_threshold (1e-9 each) are dropped and
+                # their mass is booked on the vacuum pattern of a lossy circuit. Where the accepted mass is so small that
+                # this booked mass (at most 1e-9 per full state) is a visible fraction of it, the vacuum pattern may be
+                # drawn although its exact probability is zero.
+                booked = len(full_ref) * 1e-9
+                p_acc_ = sum(acc.values())
+                if (U.shape[0] > n and not any(v) and all(hout[m] == 0 for m in hmodes) and p_acc_ > 0
+                        and booked / p_acc_ > 1e-6):
+                    labels.add("vacuum-drawn-from-booked-truncation-mass")
+                    continue
                 raise Violation(f"{what}: returned state {list(v)} is outside the support of the exact detected, "
                                 f"heralded, post-selected distribution", key="sample-support")
         if res.input != in_state:
